@@ -388,7 +388,7 @@ End Case.
 (* ---------------------------------------------------------------- soundness of the boolean form *)
 Lemma check0_sound c : case_wf0 c = true -> in_domain0 c = true -> C13_check0 c (model0 c) = true.
 Proof.
-  destruct c as [md its | md its ps | md its perms | md its lim reps | md mdc br rk ck h | md bk keys h]; [| | | |discriminate|discriminate];
+  destruct c as [md its | md its ps | md its perms | md its lim reps | md mdc br rk ck h | md sk gs hs | md bk keys h]; [| | | |discriminate|discriminate|discriminate];
     cbn [case_wf0 in_domain0 model0 C13_check0];
     destruct (parse_sort md) as [[m rv]|] eqn:Eps; auto.
   - (* ax *)
@@ -462,7 +462,7 @@ Theorem C13_check_sound_proof c : case_wf c = true -> in_domain c = true -> C13_
 Proof.
   unfold case_wf, in_domain. intros Hwf Hdom. apply andb_true_iff in Hwf as [Hwf _].
   pose proof (check0_sound (norm c) Hwf Hdom) as Hs.
-  destruct c as [md its | md its ps | md its perms | md its lim reps | md mdc br rk ck h | md bk keys h];
+  destruct c as [md its | md its ps | md its perms | md its lim reps | md mdc br rk ck h | md sk gs hs | md bk keys h];
     try exact Hs.
   unfold C13_check, model.
   set (v := table_view mdc br rk ck h) in *. set (idx := map fst v).
